@@ -336,6 +336,34 @@ def registry(I):
             add('plot.density2d', '%s/%s' % (c, scale),
                 (lambda c=c, scale=scale: (lambda a: FlowCal.plot.density2d(a['s'], a['ch'], bins=a['bins'], mode='scatter', xscale=scale, yscale=scale, sigma=2.0),
                                            {'s': conts[c](), 'ch': ['FSC', 'SSC'], 'bins': [32, 24]})), heavy=True)
+    def offscale():
+        # floating-point events below the first and above the last bin edge (explicit edges)
+        smp = I.rfi()
+        smp[0, 2] = -3.5
+        smp[1, 2] = 1e7
+        smp[5, 2] = -0.25
+        return (lambda a: FlowCal.plot.hist1d(a['s'], channel='FL1', xscale='linear', bins=a['bins']),
+                {'s': smp, 'bins': np.linspace(0.0, 5000.0, 33)})
+    add('plot.hist1d', 'float/off-scale-events/explicit-edges', offscale, heavy=True)
+
+    def offscale_default():
+        smp = I.rfi()
+        smp[0, 2] = -3.5
+        smp[1, 2] = 1e7
+        return (lambda a: FlowCal.plot.hist1d(a['s'], channel='FL1', xscale='logicle'), {'s': smp})
+    add('plot.hist1d', 'float/off-scale-events/default-bins', offscale_default, heavy=True)
+
+    def sel_after_generic_transform(scale):
+        def build():
+            # populations whose range entries were produced by the generic transform() (numpy arrays, lower limit 0)
+            d = FlowCal.transform.transform(I.beads(), 'FL1', np.arcsinh)
+            fl = np.asarray(d[:, 'FL1'].view(np.ndarray))
+            cut = np.median(fl)
+            pops_ = [d[fl < cut][:, 'FL1'], d[fl >= cut][:, 'FL1']]
+            return (lambda a: FlowCal.mef.selection_std(a['pops'], scale=scale), {'pops': pops_})
+        return build
+    for scale in ('linear', 'log', 'logicle'):
+        add('mef.selection_std', scale + '/after-generic-transform', sel_after_generic_transform(scale))
     add('plot.hist1d', 'list/edges', lambda: (lambda a: FlowCal.plot.hist1d(a['l'], channel=2, xscale='linear', bins=a['bins'], facecolor=a['fc']),
                                              {'l': [I.raw(), I.raw()[:100]], 'bins': list(np.linspace(0, 1024, 65)), 'fc': ['r', 'b']}), heavy=True)
     add('plot.scatter2d', 'list', lambda: (lambda a: FlowCal.plot.scatter2d(a['l'], a['ch'], xlim=a['xl']),
